@@ -78,7 +78,9 @@ Meet(ds2) ==
 StepParse ==
     /\ st.pc = "parsing"
     /\ \/ i < Len(decls) /\ Meet(decls)
-       \/ Mode = "lazy" /\ i = Len(decls) /\ Len(decls) < MaxDecl /\ st.restarts = 0 /\ \E d \in Decls : Meet(Append(decls, d))
+       \/ /\ Mode = "lazy" /\ i = Len(decls) /\ st.restarts = 0
+          /\ Len(decls) < (IF init.conf = "certain" THEN 1 ELSE MaxDecl)      \* one declaration is enough to see that certain ignores it
+          /\ \E d \in Decls : Meet(Append(decls, d))
        \/ i = Len(decls) /\ st' = [st EXCEPT !.pc = "done"] /\ UNCHANGED <<bomk, args, decls, nwin, i, init, log>>
 StepRestart == st.pc = "restart" /\ st' = Restarted(st) /\ i' = 0 /\ UNCHANGED <<bomk, args, decls, nwin, init, log>>
 Next == StepChain \/ StepParse \/ StepRestart
